@@ -122,7 +122,7 @@ def solve_game_via_run_games(name, game):
         if a["msg"] != "Game solved" and a["rewards"] is None and b["rewards"] is None and b["msg"] != "Game solved":
             # reported as having no solution (whatever the wording of the message)
             from .. import oracle as _o
-            og = _o.Game(game["players"], [[(0, t) for _, t in tr] for tr in game["transition_list"]], game["final_states"], [0] * n)
+            og = _o.Game(game["players"], game["transition_list"], game["final_states"], [0] * n)
             # C11 only asks that the game is "solved or reported as having no solution"; whether that report is right is C06's
             # business (open finding sub-tolerance-positive-value).  Recorded as an observation.
             return "nosol", {"positive_value": 0 in _o.positive_set(og)}
